@@ -415,6 +415,14 @@ func (c *Ctx) flagPresenceLints() {
 						return true
 					}
 				}
+				if fn != nil && fn.Pkg() != nil && strings.HasSuffix(fn.Pkg().Path(), "spf13/pflag") && isPflagSet(fn) {
+					switch fn.Name() {
+					case "NFlag", "Visit":
+						nch++
+						c.Violation("PRESENCE", c.enclosingFuncName(info, stack)+"/"+fn.Name(), x.Pos(), "the command looks at which options were set on the command line (FlagSet."+fn.Name()+"): passing an option with its documented default then behaves differently from leaving it out").Clause = clause
+						return true
+					}
+				}
 				if fn == nil || fn.Name() != "Changed" || fn.Pkg() == nil || !strings.HasSuffix(fn.Pkg().Path(), "spf13/pflag") || len(x.Args) != 1 {
 					return true
 				}
